@@ -1,6 +1,16 @@
 package otlp
 
 import (
+	"bytes"
+	"context"
+	"errors"
+	"io"
+	"net/http"
+	"time"
+
+	"github.com/sirupsen/logrus"
+
+	"github.com/atlassian/gostatsd"
 	"github.com/atlassian/gostatsd/pkg/backends/otlp/internal/data"
 )
 
@@ -28,4 +38,65 @@ func VerifC17_OTLPGroups() {
 	}
 	verifAssert(total == k, "otlp: every metric is in exactly one batch")
 	verifReach("grouped")
+}
+
+// VerifC16_OTLP: the real SendMetricsAsync / postMetrics retry loop against a symbolic fault script
+// per attempt (connection error, 503, 200): the completion callback is invoked exactly once, with
+// an error whenever no attempt of some batch succeeded, and without one when every batch was
+// accepted.
+type verifFaultyUpstream struct {
+	attempts int
+	max      int
+	failed   bool // some attempt failed
+	okCount  int
+}
+
+func (u *verifFaultyUpstream) RoundTrip(req *http.Request) (*http.Response, error) {
+	u.attempts++
+	verifAssume(u.attempts <= u.max)
+	switch nondetIntIn(0, 2) {
+	case 0:
+		u.okCount++
+		return &http.Response{StatusCode: 200, Body: io.NopCloser(bytes.NewReader(nil)), Header: http.Header{}}, nil
+	case 1:
+		u.failed = true
+		return nil, errors.New("connection reset")
+	}
+	u.failed = true
+	return &http.Response{StatusCode: 503, Body: io.NopCloser(bytes.NewReader(nil)), Header: http.Header{}}, nil
+}
+
+func VerifC16_OTLP() {
+	up := &verifFaultyUpstream{max: 3}
+	bd := &Backend{
+		metricsEndpoint:       "http://otlp/v1/metrics",
+		convertTimersToGauges: true,
+		is:                    data.NewInstrumentationScope("gostatsd/aggregation", "test"),
+		logger:                logrus.StandardLogger(),
+		client:                &http.Client{Transport: up},
+		requestsBufferSem:     make(chan struct{}, 1),
+		metricsPerBatch:       nondetIntIn(1, 2),
+		maxRetries:            nondetIntIn(0, 2),
+		maxRequestElapsedTime: 30 * time.Second,
+	}
+	mm := gostatsd.NewMetricMap(false)
+	mm.Gauges["g"] = map[string]gostatsd.Gauge{"": {Value: 1}}
+	if nondetBool() {
+		mm.Gauges["h"] = map[string]gostatsd.Gauge{"": {Value: 2}}
+	}
+	calls := 0
+	var got []error
+	bd.SendMetricsAsync(context.Background(), mm, func(errs []error) {
+		calls++
+		got = errs
+	})
+	verifAssert(calls == 1, "otlp: the completion callback is invoked exactly once under transport faults")
+	if !up.failed {
+		verifAssert(len(got) == 0, "otlp: no error when every attempt succeeded")
+		verifReach("clean")
+	}
+	if up.okCount == 0 {
+		verifAssert(len(got) > 0, "otlp: an error is reported when no attempt succeeded")
+		verifReach("all-failed")
+	}
 }
